@@ -228,6 +228,10 @@ func (r *Runner) reader() {
 			r.addProblem(&Problem{Kind: "driver-error", Case: c, Detail: "bad answer: " + err.Error()})
 			continue
 		}
+		if t := os.Getenv("VERIF_TRACE"); t != "" && strings.Contains(c.ID, t) {
+			ib, _ := json.Marshal(c.Impl)
+			fmt.Fprintf(os.Stderr, "TRACE %s\n  impl  %s\n  model %s\n", c.ID, ib, r.out.Bytes())
+		}
 		r.sum.Evaluations++
 		r.sum.Classes[c.Class]++
 		if c.Dist != nil {
